@@ -1567,6 +1567,16 @@ func (x *Exec) load(fr *frame, st *State, p Val, pos token.Pos) (Val, error) {
 		if p.Loc.Kind != LCell && v.Loc == nil && v.Tuple == nil && v.Clo == nil {
 			v.T = vc.bind("ld", v.T)
 			vc.assume(st.pc, vc.wf(st, v.T, v.Typ, 0))
+			// The entry heap is closed: what an object that existed at entry holds in a field or
+			// element nobody has written since entry was itself allocated at entry (so it is
+			// distinct from everything the function allocates).
+			if (p.Loc.Kind == LField || p.Loc.Kind == LElem) && x.entry != nil && st.epoch == 0 && p.Loc.Ref.S != "" {
+				if h, ok := st.heap[p.Loc.Key]; !ok || strings.HasPrefix(h.S, "H0_") {
+					a0 := vc.heapInitial("$alloc", arraySort(SInt, SBool))
+					e0 := &State{heap: map[string]Term{"$alloc": a0}}
+					vc.assume(st.pc, Implies(Select(a0, p.Loc.Ref), vc.wf(e0, v.T, v.Typ, 0)))
+				}
+			}
 		}
 		return v, nil
 	}
